@@ -131,6 +131,7 @@ def setup(ids):
     ready = json.loads((VERIF / 'ready.json').read_text()) if (VERIF / 'ready.json').exists() else core.all_prop_ids()
     ids = [i.upper() for i in ids] or ready
     props = [core.load_prop(i) for i in ids]
+    props += [core.load_prop(x) for p in list(props) for x in getattr(p, 'also', [])]
     ok_all = True
     with core.build_lock():
         for p in props:
@@ -162,6 +163,7 @@ def check(pid, tier, replay_file):
     core.use_repo()
     prop = core.load_prop(pid)
     prop.setup()
+    rid = getattr(prop, 'report_id', None) or pid     # id printed in VIOLATION / KNOWN-FINDING lines
     result = {'property': pid, 'tier': tier, 'seed': seed}
     b = build_phase(prop, result)
     tie_broken = list(b['broken'])
@@ -178,10 +180,10 @@ def check(pid, tier, replay_file):
             print(json.dumps({'input': r['input'], 'impl': r['obs'], 'model': r['model'],
                               'holds': r['holds'], 'why': r['why']})[:4000])
         if bad:
-            print(f'VIOLATION property={pid} replay={replay_file}')
+            print(f'VIOLATION property={rid} replay={replay_file}')
             return 1
         if tie_broken or any(not prop.equal(r['model'], r['obs']) for r in res):
-            print(f'VIOLATION property={pid} replay={replay_file} no-failing-input-found')
+            print(f'VIOLATION property={rid} replay={replay_file} no-failing-input-found')
             return 1
         return 0
 
@@ -244,7 +246,7 @@ def check(pid, tier, replay_file):
                 'property': pid, 'seed': seed, 'input': c['input'], 'impl_output': c['obs'],
                 'model_output': c['model'], 'judge': {'holds': False, 'why': c['why']},
                 'broken': tie_broken})
-            out_lines.append(f'VIOLATION property={pid} replay={f}')
+            out_lines.append(f'VIOLATION property={rid} replay={f}')
             log(f'[{pid}] violation: {c["why"]} on {json.dumps(c["input"])[:400]}')
         violations = len(new)
         exit_code = 1
@@ -256,13 +258,13 @@ def check(pid, tier, replay_file):
                                     'model_output': disagreements[0]['model']} if disagreements else None),
             'searched_inputs': searched + len(cases),
             'note': 'the theorem / correspondence named in "broken" no longer checks; no input was found on which the property itself fails'})
-        out_lines.append(f'VIOLATION property={pid} replay={f} no-failing-input-found')
+        out_lines.append(f'VIOLATION property={rid} replay={f} no-failing-input-found')
         violations = 1
         exit_code = 1
     for key, e in finding_keys.items():
         hit = [c for k, c in known if k == key]
         if hit:
-            out_lines.append(f'KNOWN-FINDING: property={pid} {e["what"]}')
+            out_lines.append(f'KNOWN-FINDING: property={rid} {e["what"]}')
 
     samples = []
     for k, hs in list(classes.items())[:6]:
